@@ -38,12 +38,23 @@ var c10Texts = map[string][]string{
 		"local m = require(\"a\")\nprint(m, gfoo)\n",
 		"gthird = gfoo\n",
 	},
+	// a document outside every workspace folder (only meaningful when the client names its
+	// plugin path: without it the server treats every path as inside)
+	"/outside/o.lua": {
+		"goutside = 1\nprint(gfoo, goutside)\nfunction outfn(a)\n  return a\nend\n",
+		"print(gfn(1, 2))\nlocal oo = 2\nprint(oo)\n",
+	},
 }
 
 func genC10(seed int64, tier string) *Scenario {
 	r := rand.New(rand.NewSource(seed))
 	sc := &Scenario{Prop: "C10", Seed: seed, Knobs: map[string]interface{}{}}
 	names := []string{"a.lua", "b.lua", "sub/c.lua"}
+	if r.Intn(2) == 0 {
+		sc.Plugin = true
+		names = append(names, "/outside/o.lua")
+		sc.Knobs["plugin"] = true
+	}
 	cur := map[string]string{}
 	for _, n := range names {
 		t := c10Texts[n][0]
